@@ -22,7 +22,7 @@ m = {
         {"name": "harness", "path": "/verif/harness", "serves_properties": sorted(META), "kind_free_text": "seq / conc / comp engines, reference model, oracles, minimiser, replay"},
     ],
     "checks": [],
-    "notes": "Technique family: deterministic simulation with fault injection. ./check <id> [--tier quick|thorough] [--seed N]; ./check replay <file>; ./check selftest. Exit 2 = build/instrumentation/watchdog trouble, never a verdict. Known findings: /verif/known_findings.json (read by every check; one open entry: C09 volunteered values, DESIGN.md section 9; 'fixed' entries suppress nothing). Genuine defects repaired in /repo with unguarded 'fix:' commits: 87558db 7ff25c5 735cff9 0ac0170 eb622bb 36fa03c 38bdb38 397ed47 96ea7b9 af28bbc 6965b78 d8499fb 159aebe bd7dbb1 366ca72 d944fc5 e723881 2730d21 d8b2b96 48b862b (DESIGN.md section 9). Design, false alarms corrected, seeded and behaviour-preserving change experiments, rounds 3 and 4: /verif/DESIGN.md sections 11-15.",
+    "notes": "Technique family: deterministic simulation with fault injection. ./check <id> [--tier quick|thorough] [--seed N]; ./check replay <file>; ./check selftest. Exit 2 = build/instrumentation/watchdog trouble, never a verdict. Known findings: /verif/known_findings.json (read by every check; no open entry; 'fixed' entries suppress nothing). Genuine defects repaired in /repo with unguarded 'fix:' commits: 87558db 7ff25c5 735cff9 0ac0170 eb622bb 36fa03c 38bdb38 397ed47 96ea7b9 af28bbc 6965b78 d8499fb 159aebe bd7dbb1 366ca72 d944fc5 e723881 2730d21 d8b2b96 48b862b (DESIGN.md section 9). Design, false alarms corrected, seeded and behaviour-preserving change experiments, rounds 3 and 4: /verif/DESIGN.md sections 11-15.",
     "not_applicable": [{"property_id": k, "reason": v} for k, v in sorted(NOT_APPLICABLE.items())],
 }
 for pid in sorted(META):
